@@ -246,7 +246,7 @@ ADDED = {
     "C03": "Also in the search: datasets that share their last dimension by name (knob shareddims).",
     "C01": "Also in the search: HLconvert on an element that has a descriptor and no data yet, before its first byte.",
     "C02": "Also in the search: datasets stored low byte first, the largest reference number in use and elements stored "
-           "under references the library hands out (mixed workload). An element promoted to linked blocks before its first byte; fill-mode switches.",
+           "under references the library hands out (mixed workload). An element promoted to linked blocks before its first byte; fill-mode switches; the first chunk of every chunked image is read as a whole before anything else is read through the image id.",
     "C05": "Also in the search: compressing an element that holds plain data already, then reading or rewriting it through "
            "the returned id. One access id walks all elements of the tag with Hnextread: on each it starts at position 0 and a read of the rest gives the whole element; the walk ends with Hendaccess.",
     "C07": "Also in the search: field names that are prefixes of one another, names of 124..128 characters, fields defined "
